@@ -9,7 +9,7 @@ PROFILE_SPEC = {
     'dec-replay': 'TraceDec', 'dec-deep': 'TraceDec',
     'mem': 'TraceMem',
     'query-overflow': 'TraceMisc',
-    'labels': 'TraceMisc', 'oneshot': 'TraceMisc', 'meta': 'TraceMisc', 'forbom': 'TraceMisc',
+    'labels': 'TraceMisc', 'oneshot': 'TraceMisc', 'oneshot-replay': 'TraceMisc', 'meta': 'TraceMisc', 'forbom': 'TraceMisc',
     'enc-sweep': 'TraceEnc', 'enc-pairs': 'TraceEnc', 'enc-cutsets': 'TraceEnc', 'enc-random': 'TraceEnc', 'enc-replay': 'TraceEnc',
 }
 
@@ -716,9 +716,113 @@ def plan_C19(rep, seed, tier):
 def plan_C11(rep, seed, tier):
     binp = build_harness('default')
     rv(rep, binp, 'oneshot', seed, tier, shards=32)
+    run_mc_oneshot(rep, binp, MC_ONESHOT_THOROUGH if tier == 'thorough' else MC_ONESHOT_QUICK)
     rep.cov['rule'] = ('Encoding::decode / decode_with_bom_removal / decode_without_bom_handling / ..._and_without_replacement / encode for all 40 encodings: '
                        'ASCII run of every length 0..130 (and 191..193, 255..257, 1000, 4095..4097) followed by class-alphabet tails and BOM look-alikes; '
                        'text, encoding used, error flag, None-iff-malformed, borrow promise and aliasing judged by the spec; streaming twin compared')
+
+
+def O(enc, alphabet, maxbytes):
+    return dict(EncName=enc, Alphabet=alphabet, MaxBytes=maxbytes)
+
+
+# Layer I of the one-shot decode API: every input up to MaxBytes over alphabets with error bytes (so that the replacement
+# characters outgrow the first allocation), BOM bytes and each encoding's lead/trail classes
+MC_ONESHOT_QUICK = [
+    O('UTF-8', [0x61, 0x80, 0xC3, 0xFF, 0xEF], 5),
+    O('UTF-8', [0x61, 0xEF, 0xBB, 0xBF, 0xFF], 4),
+    O('windows-1252', [0x61, 0x80, 0x81, 0xFF, 0xFE, 0xEF, 0xBB, 0xBF], 4),
+    O('Big5', [0x61, 0x80, 0x87, 0xA4, 0x40, 0xFF], 5),
+    O('EUC-KR', [0x61, 0x80, 0xA1, 0xB0, 0xFF], 5),
+    O('ISO-2022-JP', [0x61, 0x1B, 0x24, 0x28, 0x42, 0xFF], 5),
+    O('UTF-16LE', [0x61, 0x00, 0xD8, 0xDC, 0xFF, 0xFE], 5),
+    O('replacement', [0x61, 0xEF, 0xBB, 0xBF, 0xFF], 4),
+    O('gb18030', [0x61, 0x30, 0x81, 0x84, 0xFF], 5),
+]
+MC_ONESHOT_THOROUGH = MC_ONESHOT_QUICK + [
+    O('UTF-8', [0x61, 0x80, 0xC3, 0xE2, 0xF0, 0x9F, 0xFF], 5),
+    O('UTF-8', [0x61, 0x80, 0xFF], 8),
+    O('EUC-KR', [0x61, 0x80, 0xA1, 0xB0, 0xFF], 6),
+    O('Big5', [0x61, 0x87, 0xFF], 8),
+    O('EUC-JP', [0x61, 0x8E, 0x8F, 0xA1, 0xB0, 0xFF], 6),
+    O('Shift_JIS', [0x61, 0x80, 0x81, 0x40, 0xA1, 0xFC, 0xFD, 0xFF], 5),
+    O('UTF-16BE', [0x61, 0x00, 0xD8, 0xDC, 0xFE, 0xFF], 6),
+    O('x-user-defined', [0x61, 0x80, 0xFF, 0xEF, 0xBB, 0xBF], 5),
+    O('GBK', [0x61, 0x80, 0x81, 0x30, 0x40, 0xFF], 6),
+]
+
+
+def run_mc_oneshot(rep, binp, configs):
+    """TLC: Layer I of the one-shot API judged by the monitor's one-shot rule on every input of the configuration; then every
+    input is replayed on the real API (OD events: violations are fatal) and the four results are compared with the prediction"""
+    import concurrent.futures
+    t = time.time()
+    with concurrent.futures.ThreadPoolExecutor(max_workers=8) as ex:
+        futs = [ex.submit(mc_run, 'MC_OneShot', cfg, ('NoViolation',), (), None, 1, 3000, True, '4g') for cfg in configs]
+        runs = [f.result() for f in futs]
+    log('TLC model checking of %d configurations of MC_OneShot in %.1fs' % (len(configs), time.time() - t))
+    outdir = '%s/%s/mcreplay_MC_OneShot' % (RUN, rep.prop)
+    clean_dir(outdir)
+    infile = outdir + '/inputs.ndjson'
+    preds = []
+    with open(infile, 'w') as f:
+        for cfg, r in zip(configs, runs):
+            rep.add_mc(r['name'], r, 'Layer I of Encoding::decode* (for_bom, borrow decision, first allocation, decode_to_string loop with reserve, had_errors accumulation) '
+                                    'judged by the one-shot rule of the monitor on every input <= MaxBytes over the alphabet')
+            run = rep.cov['mc_runs'][-1]
+            run['consts'] = cfg
+            if r.get('violated') or not r.get('completed'):
+                run['model_violation'] = True
+                rep.notes.append('MODEL-ALARM %s: %s' % (r['name'], (r.get('error_text') or '')[:1500]))
+                log('MODEL-ALARM', r['name'], (r.get('error_text') or '')[:600])
+            hs = r.get('hists', [])
+            run['inputs'] = len(hs)
+            run['predictions_with_second_allocation'] = sum(1 for h in hs for p_ in h['pred'] if p_['allocs'] >= 2)
+            for h in hs:
+                f.write(json.dumps({'enc': h['enc'], 'input': h['input']}) + '\n')
+                preds.append((run, h))
+    if not preds:
+        return
+    st = run_profile(binp, 'oneshot-replay', outdir, 1, 'quick', shards=1, extra=['--in', infile])
+    # one shard: the events are in input order, four per input
+    results = validate_traces('TraceMisc', split_file(st['files'][0], 16))
+    rep.add_trace_results('replay of %d inputs exported by MC_OneShot through the four entry points' % len(preds), 'TraceMisc', results, st)
+    handle_trace_violations(rep, results)
+    evs = [json.loads(l) for l in open(st['files'][0])]
+    drift = {}
+    for i, (run, h) in enumerate(preds):
+        for j, p_ in enumerate(h['pred']):
+            e = evs[4 * i + j] if 4 * i + j < len(evs) else {}
+            real = {'out': e.get('out'), 'used': e.get('used'), 'had': e.get('had'), 'none': e.get('none'), 'borrowed': e.get('borrowed'), 'panic': e.get('panic')}
+            pred = {k: p_[k] for k in real}
+            if pred['none']:
+                real['out'] = pred['out'] = []
+            if real != pred:
+                d = drift.setdefault(id(run), [run, 0, None])
+                d[1] += 1
+                if d[2] is None:
+                    d[2] = {'input': h['input'], 'api': p_['api'], 'predicted': pred, 'real': real}
+    for run, h in preds:
+        run.setdefault('model_drift_calls', 0)
+        run['model_conformant'] = True
+    for run, n, first in drift.values():
+        run['model_drift_calls'] = n
+        run['model_conformant'] = False
+        run['first_drift'] = first
+        log('MODEL-DRIFT %s: %d predictions differ, first: %s' % (run['model'], n, json.dumps(first)[:600]))
+
+
+def split_file(path, n):
+    """split an ndjson trace into n files of whole lines (each OD event is its own history)"""
+    lines = open(path).read().split('\n')
+    lines = [l for l in lines if l]
+    out = []
+    per = max(1, -(-len(lines) // n))
+    for i in range(0, len(lines), per):
+        p_ = '%s.part%02d.ndjson' % (path[:-7], i // per)
+        open(p_, 'w').write('\n'.join(lines[i:i + per]) + '\n')
+        out.append(p_)
+    return out
 
 
 def plan_C13(rep, seed, tier):
